@@ -96,6 +96,8 @@ fn call(oracle: &str, v: &Value) -> Value {
         "incan::static_type" => c07::static_type(v),
         #[cfg(feature = "lsp")]
         "incan::compound_assign" => c07::compound_assign(v),
+        #[cfg(feature = "lsp")]
+        "incan::emit_slice" => c05::emit_slice(v),
         "syntax::get_line_info" => {
             use incan_syntax::diagnostics::{format_error, CompileError};
             use incan_syntax::ast::Span;
@@ -132,6 +134,80 @@ fn call(oracle: &str, v: &Value) -> Value {
     }
 }
 
+
+#[cfg(feature = "lsp")]
+mod c05 {
+    //! C05 bounded stand-in for the parser's slice/index syntax, the lowering of Index/Slice and
+    //! emit_index_expr / emit_slice_expr: source text -> real lexer, parser, code generator -> the runtime
+    //! helper call in the generated Rust must be the documented helper with the written bounds in the written
+    //! positions (`None` exactly for an omitted bound). The helpers themselves are proved in the C05 units.
+    use super::{guarded, verdict};
+    use serde_json::{json, Value};
+
+    fn bound_src(kind: &str, var: &str) -> Option<String> {
+        match kind { "none" => None, "var" => Some(var.to_string()), "zero" => Some("0".to_string()), "neg" => Some("-1".to_string()), "two" => Some("2".to_string()), _ => None }
+    }
+    fn norm(s: &str) -> String { s.chars().filter(|c| !c.is_whitespace() && *c != '(' && *c != ')').collect() }
+    /// arguments of the first call `name(` in `code`, split at top-level commas
+    fn call_args(code: &str, name: &str) -> Option<Vec<String>> {
+        let i = code.find(name)? + name.len();
+        let b: Vec<char> = code[i..].chars().collect();
+        if b.first() != Some(&'(') { return None; }
+        let (mut depth, mut cur, mut out) = (0i32, String::new(), Vec::new());
+        for &c in &b {
+            match c {
+                '(' | '[' | '{' => { depth += 1; if depth > 1 { cur.push(c); } }
+                ')' | ']' | '}' => { depth -= 1; if depth == 0 { if !cur.trim().is_empty() { out.push(cur.clone()); } return Some(out); } cur.push(c); }
+                ',' if depth == 1 => { out.push(cur.clone()); cur.clear(); }
+                _ => cur.push(c),
+            }
+        }
+        None
+    }
+
+    pub fn emit_slice(v: &Value) -> Value {
+        let is_str = v["target"].as_str() == Some("str");
+        let compact = v["compact"].as_bool().unwrap_or(true);
+        let index_only = v["index"].as_bool().unwrap_or(false);
+        let (st, en, sp) = (bound_src(v["start"].as_str().unwrap_or("none"), "st"), bound_src(v["end"].as_str().unwrap_or("none"), "en"), bound_src(v["step"].as_str().unwrap_or("none"), "sp"));
+        let tname = if is_str { "s" } else { "xs" };
+        let sub = if index_only {
+            st.clone().unwrap_or("st".to_string())
+        } else {
+            let sep = if compact { ":" } else { " : " };
+            let mut t = format!("{}{}{}", st.clone().unwrap_or_default(), sep, en.clone().unwrap_or_default());
+            if sp.is_some() { t = format!("{}{}{}", t, sep, sp.clone().unwrap()); }
+            t
+        };
+        let src = format!("def main() -> None:\n    s: str = \"hello\"\n    xs: List[int] = [1, 2, 3]\n    st: int = 1\n    en: int = 4\n    sp: int = 2\n    r = {}[{}]\n", tname, sub);
+        let got = guarded(|| {
+            let tokens = incan::frontend::lexer::lex(&src).map_err(|e| format!("lex: {:?}", e.first().map(|x| x.message.clone())))?;
+            let prog = incan::frontend::parser::parse(&tokens).map_err(|e| format!("parse: {:?}", e.first().map(|x| x.message.clone())))?;
+            incan::IrCodegen::new().try_generate(&prog).map_err(|e| format!("codegen: {}", e))
+        });
+        let helper = match (is_str, index_only) { (true, true) => "incan_stdlib::strings::str_index", (false, true) => "incan_stdlib::collections::list_get",
+                                                  (true, false) => "incan_stdlib::strings::str_slice", (false, false) => "incan_stdlib::collections::list_slice" };
+        let want_arg = |b: &Option<String>| match b { None => "None".to_string(), Some(x) => format!("Some{}asi64", norm(x)) };
+        let expected: Vec<String> = if index_only { vec![format!("&{}", tname), format!("{}asi64", norm(&st.clone().unwrap_or("st".to_string())))] }
+                                    else { vec![format!("&{}", tname), want_arg(&st), want_arg(&en), want_arg(&sp)] };
+        let args_echo = { let mut a = v.clone(); a["source"] = json!(src); a };
+        match &got {
+            Ok(Ok(code)) => {
+                let flat: String = code.split_whitespace().collect::<Vec<_>>().join(" ").replace(" :: ", "::");
+                let args = call_args(&flat, helper).map(|a| a.iter().map(|x| norm(x)).collect::<Vec<_>>());
+                let ok = args.as_ref() == Some(&expected);
+                verdict(ok, json!({"helper_call_args": args}), json!({"helper": helper, "args": expected}), &args_echo, "generated call: documented helper, written bounds in written positions")
+            }
+            Ok(Err(m)) => {
+                let mut r = verdict(false, json!({"front_end_error": m}), json!({"helper": helper, "args": expected}), &args_echo, "a documented slice form must compile");
+                // known finding: `::` is lexed as one path token, so `[::step]` / `[a::step]` do not parse
+                if m.starts_with("parse") && sub.contains("::") { r["class"] = json!("C05-slice-double-colon-syntax"); }
+                r
+            }
+            Err(m) => verdict(false, json!({"panicked": m}), json!({"helper": helper}), &args_echo, "front end must not panic"),
+        }
+    }
+}
 
 #[cfg(feature = "lsp")]
 mod c07 {
@@ -340,6 +416,16 @@ fn search(oracle: &str, seed: u64, budget: u64, skip: &[String]) -> Value {
                 let pos = ["let", "return", "arg"];
                 let k = n % 1176;
                 json!({"op": k % 7, "lfloat": (k / 7) % 2 == 0, "rfloat": (k / 14) % 2 == 0, "ann_float": (k / 28) % 2 == 0, "form": forms[((k / 56) % 7) as usize], "position": pos[((k / 392) % 3) as usize]})
+            }
+            "incan::emit_slice" => {
+                // exhaustive: 2 targets x (slice: 4 start x 4 end x 4 step forms x compact/spaced  +  index: 4 forms) = 2 x (128 + 4) = 264
+                let kinds = ["none", "var", "zero", "neg"];
+                let steps = ["none", "var", "neg", "two"];
+                let k = n % 264;
+                let t = if k % 2 == 0 { "str" } else { "list" };
+                let k = k / 2;
+                if k < 128 { json!({"target": t, "start": kinds[(k % 4) as usize], "end": kinds[((k / 4) % 4) as usize], "step": steps[((k / 16) % 4) as usize], "compact": (k / 64) % 2 == 0}) }
+                else { let f = ["var", "zero", "neg", "two"][((k - 128) % 4) as usize]; json!({"target": t, "index": true, "start": f}) }
             }
             "incan::compound_assign" => {
                 // exhaustive: 6 compound operators x 2 target kinds x 2 value kinds = 24 programs
